@@ -27,12 +27,16 @@ static void worker(int t, int nthreads, int rounds, const std::vector<std::strin
             r.tr = &tr;
             r.tag = "_t" + std::to_string(t);
             r.run(h);
-            // renderers on the same thread (they use per-call scratch buffers)
+            // renderers on the same thread (they use per-call scratch buffers); with VERIF_RENDER_DIGEST the rendered text is
+            // logged as a digest (an "output" of the work like the files: it must not depend on what other threads do)
+            uint64_t rh = 1469598103934665603ULL;
+            auto mix = [&](const std::string& s) { for (unsigned char c : s) { rh ^= c; rh *= 1099511628211ULL; } };
             for (auto& op : h["ops"]) {
-                if (op["op"] == "qr") { auto g = vr::qr_in(op["r"]); volatile size_t n = g.string().size(); (void)n; }
-                if (op["op"] == "mm") { auto g = vr::mm_in(op["r"]); volatile size_t n = g.string().size(); (void)n; }
-                if (op["op"] == "aec") { auto g = vr::aec_in(op["r"]); volatile size_t n = g.string().size(); (void)n; }
+                if (op["op"] == "qr") { auto g = vr::qr_in(op["r"]); mix(g.string()); }
+                if (op["op"] == "mm") { auto g = vr::mm_in(op["r"]); mix(g.string()); }
+                if (op["op"] == "aec") { auto g = vr::aec_in(op["r"]); mix(g.string()); }
             }
+            if (getenv("VERIF_RENDER_DIGEST")) tr.emit({{"e", "OUT"}, {"why", "render"}, {"raw_ok", true}, {"bytes", json::array({json{{"l", json::array({rh & 0xFFFFFF, (rh >> 24) & 0xFFFFFF, (rh >> 48) & 0xFFFF})}}})}});
             if ((j & 3) == 0) sched_yield();
         }
     }
